@@ -75,6 +75,8 @@ def mk_types():
         ('int:4=-3', ib(-3, 4), 'int:4', -3), ('bits:4=0b1010', '1010', 'bits:4', None), ('float:32=1.5', fbits(1.5, 32), 'float:32', 1.5), ('u3=v', ib(6, 3), 'u3', 6))])
     add('lenless', [Tok('lenless', s, None, vals, enc, norm=norm, lenless=True) for s, vals, enc, norm in (
         ('bin', ['10', '11100'], lambda v: v, None), ('hex', ['f', 'a5c'], lambda v: ib(int(v, 16), 4 * len(v)), None), ('oct', ['7', '12'], lambda v: ib(int(v, 8), 3 * len(v)), None),
+        ('bin', ['', '1'], lambda v: v, None), ('hex', ['', 'ab'], lambda v: ib(int(v, 16), 4 * len(v)) if v else '', None), ('bits', ['', '0b1'], lambda v: v[2:], lambda v: v[2:]),
+        ('bytes', [b'', b'q'], lambda v: ''.join(format(x, '08b') for x in v), None),
         ('bits', ['0b1', '0xff0'], lambda v: ib(int(v, 0), len(v) - 2 if v.startswith('0b') else 4 * (len(v) - 2)), lambda v: ib(int(v, 0), len(v) - 2 if v.startswith('0b') else 4 * (len(v) - 2))),
         ('bytes', [b'a', b'xyz'], lambda v: ''.join(format(x, '08b') for x in v), None))])
     # zero-length tokens are legal and contribute nothing - but only with an empty value
@@ -101,15 +103,19 @@ def expand(items):
     return out
 
 
-def render(items, sep=', '):
+STYLES = {'plain': ('{k}*{t}', '{k}*({g})'), 'sp1': ('{k} * {t}', '{k} * ( {g} )'), 'sp2': ('{k}* {t}', '{k}* ({g})'), 'sp3': ('{k} *{t}', '{k} *({g})'), 'sp4': (' {k}*{t} ', '{k}*(\t{g}\n)')}
+
+
+def render(items, sep=', ', style='plain'):
+    ts, gs = STYLES[style]
     parts = []
     for it in items:
         if it[0] == 'tok':
             parts.append(it[1].spell)
         elif it[0] == 'mult':
-            parts.append(f"{it[1]}*{it[2].spell}")
+            parts.append(ts.format(k=it[1], t=it[2].spell))
         elif it[0] == 'group':
-            parts.append(f"{it[1]}*({render(it[2], sep)})")
+            parts.append(gs.format(k=it[1], g=render(it[2], sep, style)))
         else:
             parts.append('')
     return sep.join(parts)
@@ -222,9 +228,9 @@ def run_seq(bs, acc, seq):
         check_format(bs, acc, items, choice or (0,), sep=(', ', ',', ' ,  ')[(sum(seq) + ci) % 3], full=(ci == 0))
 
 
-def check_format(bs, acc, items, choice, sep=', ', full=True):
+def check_format(bs, acc, items, choice, sep=', ', full=True, style='plain'):
     toks = expand(items)
-    fmt = render(items, sep)
+    fmt = render(items, sep, style)
     kw = kwargs_of(toks)
     vals, per = flat_values(toks, choice)
     bits = expected_bits(toks, per)
@@ -281,7 +287,7 @@ def check_format(bs, acc, items, choice, sep=', ', full=True):
                                          f"assert repr(r) == {repr(e2[1])!r} and s.pos == {len(bits)}, (r, s.pos)"]), (e2[1], len(bits)), str(got)[:160])
     # every split of the item list into two formats (list-of-strings form)
     for cut in range(0, len(items) + 1):
-        f1, f2 = render(items[:cut], sep), render(items[cut:], sep)
+        f1, f2 = render(items[:cut], sep, style), render(items[cut:], sep, style)
         got = obs(lambda: bs.pack([f1, f2], *vals, **kw).bin)
         acc.step('split', 1, nontrivial=1, ok=1)
         if got != ('ok', bits):
@@ -342,6 +348,15 @@ def groups(bs, acc):
                     check_format(bs, acc, [('group', 2, [('tok', a), ('group', k, [('tok', b)])])], (0, 1, 1), full=True)
                     check_format(bs, acc, [('group', k, [('mult', 2, a), ('tok', b)])], (1, 0, 1), full=False)
                     check_format(bs, acc, [('group', 1, [('group', k, [('tok', a), ('group', 2, [('tok', b)])])])], (1, 1, 0), full=False)
+    # multi-digit factors; nesting where the inner group comes first; whitespace around '*' and '('
+    for a, b in itertools.product(atoms[:5], atoms[:5]):
+        for ko, ki in ((10, 2), (12, 10), (3, 2), (2, 11), (10, 10)):
+            check_format(bs, acc, [('group', ko, [('group', ki, [('tok', a)]), ('tok', b)])], (0, 1, 1), full=(ko, ki) == (10, 2))
+            check_format(bs, acc, [('group', ko, [('tok', b), ('group', ki, [('tok', a)])])], (1, 0, 1), full=False)
+        check_format(bs, acc, [('mult', 10, a), ('group', 11, [('tok', b)])], (0, 1), full=False)
+        for style in ('sp1', 'sp2', 'sp3', 'sp4'):
+            check_format(bs, acc, [('group', 2, [('tok', a), ('tok', b)])], (0, 1, 1), style=style)
+            check_format(bs, acc, [('mult', 3, a), ('group', 2, [('group', 2, [('tok', b)]), ('tok', a)])], (1, 0, 1), style=style, full=False)
     # empty items and whitespace
     for a, b in itertools.product(atoms[:6], repeat=2):
         check_format(bs, acc, [('tok', a), ('empty',), ('tok', b)], (0, 1))
